@@ -172,6 +172,30 @@ func genC13(e *emitter, tier string, seed int64) {
 		scripts := []scriptSrc{{"a.p", a}, {"b.p", b}, {"c.p", c}}
 		emitMulti(e, scripts, "a.p", stdPoint(rng), 3000, true, "calltree-rand", a+"\n---b\n"+b+"\n---c\n"+c, nil)
 	}
+	// (round 7) a use() call runs the script it was loaded with: one caller text loaded next to different
+	// companions, every set kept by the host and run after the others were loaded
+	{
+		a := "v = \"a\"\nuse(\"b.p\")\np(\"back\", v, get_key(from))\nif true {\n  use(\"b.p\")\n}\n"
+		bs := []string{"add_key(from, \"one\")\n", "add_key(from, \"two\")\nzero = 0\nx = 1 / zero\n", "add_key(from, \"three\")\nexit()\nadd_key(never, 1)\n", "v = \"b\"\nadd_key(from, v)\nuse(\"c.p\")\n"}
+		for _, o := range perms([]string{"0", "1", "2", "3"}) {
+			ops := []runCase{}
+			key := ""
+			for _, x := range o {
+				i := int(x[0] - '0')
+				ops = append(ops, runCase{Scripts: []scriptSrc{{"a.p", a}, {"b.p", bs[i]}, {"c.p", "add_key(fromc, 1)\n"}}, Entry: "a.p", Point: pt, HasSig: true})
+				key += x
+			}
+			for h := 1; h <= 4; h++ {
+				op := ops[h-1]
+				op.Held = h
+				ops = append(ops, op)
+			}
+			out := histV1(ops)
+			out["gen"], out["key"], out["strict"] = "same-caller-different-companions", "order "+key, true
+			e.stat("same-caller-different-companions")
+			e.emit(out)
+		}
+	}
 }
 
 // C14: every poll index k at which the signal first reports true
